@@ -36,14 +36,14 @@ TECHNIQUE = 'conservation monitor (independent per-segment re-summation) over ge
 
 
 def plan(tier, seed):
-    per = 400 if tier == 'quick' else 12000
+    per = 1300 if tier == 'quick' else 12000
     return [{'seed': seed * 1000 + i, 'n': per} for i in range(16)] + \
         [{'seed': seed * 1000 + 77, 'n': 0, 'huge': 70000 if tier == 'quick' else 200000}]
 
 
 def required(tier):
     from vlib.gridwork import KINDS
-    cl = [f'geom:{k}' for k in KINDS] + ['gridder:object-switched-to-another-grid', 'trajectory:more-than-65536-points', 'axes:alt+time', 'axes:', 'res:fine', 'res:medium',
+    cl = [f'geom:{k}' for k in KINDS] + ['history:regridded-after-many-other-trajectories', 'gridder:object-switched-to-another-grid', 'trajectory:more-than-65536-points', 'axes:alt+time', 'axes:', 'res:fine', 'res:medium',
                                          'res:coarse', 'segment:zero-length',
                                          'segment:antimeridian', 'segment:many-crossings',
                                          'integrated:integer-typed']
@@ -161,6 +161,7 @@ def run_shard(spec, rec):
         return
 
     M = 400 if spec.get('tier') == 'quick' else 1500
+    first_cases: list = []
     ks = [spec['only']] if 'only' in spec else range(spec['n'])
     for k in ks:
         rng = random.Random(f"{spec['seed']}-{k}")
@@ -168,9 +169,34 @@ def run_shard(spec, rec):
         c = gw.make_case(rng, k, M)
         if c.n_cross > 1:
             continue
+        if len(first_cases) < 4 and not c.error and c.len_ok and not getattr(c, 'reused_gridder',
+                                                                             False):
+            first_cases.append((k, c))
         try:
             judge(c, rec, Mismatch)
             if k < 2:
                 rec.sample(c.desc)
         except Mismatch as m:
             rec.violation(m.mechanism, m.detail, case)
+    # ---- the first trajectories of this process gridded once more, after (in the thorough tier:
+    # thousands of) other trajectories went through the same code: same arrays, same answer
+    if 'only' not in spec and len(ks) >= 300:
+        import AEIC.gridding.grid as grid_mod
+        import numpy as np
+        for k0, c in first_cases:
+            rec.ev()
+            try:
+                out2 = gw.run_gridder(grid_mod.Gridder, c.lat_g, c.lon_g, c.alt_g, c.tim_g, c.lats,
+                                      c.lons, c.alts, c.times, c.state, c.integ)
+                same = all(len(a) == len(b) and np.allclose(a, b, rtol=1e-12, atol=0)
+                           for a, b in zip(c.out[5], out2[5]))
+                err = None
+            except Exception as e:  # noqa: BLE001
+                same, err = False, f'{type(e).__name__}: {str(e)[:160]}'
+            if not same:
+                rec.violation('a trajectory gridded again after many other trajectories gives a '
+                              'different answer', {'error': err, 'griddings_in_between': len(ks),
+                                                   **c.desc},
+                              {'spec': {'seed': spec['seed'], 'n': spec['n']}, 'k': k0})
+            else:
+                rec.cls('history:regridded-after-many-other-trajectories')
